@@ -253,7 +253,6 @@ package leader
 //@ func (e *kvElection) logWithContext(ctx)
 //@   tags C09
 //@   flag pure untagged_panics
-//@   requires C09.nil_ctx: ctx != nil
 
 //@ func (e *kvElection) getMetricsLabels()
 //@   flag pure
@@ -574,7 +573,6 @@ package leader
 //@   tags C03 C12 C05 C01 C07
 //@   flag spawn_exempt:heartbeatLoop$1
 //@   requires C09.nil_ctx: ctx != nil
-//@   requires C12.count_starts_at_zero: e.healthFailureCount == 0
 //@   requires C01.term_started: e.revSet
 //@   ghost streak Int = 0
 //@   ghost cfail Int = 0
